@@ -195,16 +195,52 @@ ArgvPermitted(argv, cwd, f, X, T) ==
 
 (***************************************************************************)
 (* msbuild (vs backend), as far as the documents describe it:                *)
-(*  [R054] "-j0 is the same as msbuild builddir/my.sln -m", "-l does nothing *)
-(*  with msbuild", "--verbose: for VS backend logs will be less verbose by   *)
-(*  default (without --verbose)"; [R055] --vs-args are added; [T1] uses      *)
-(*  --vs-args=-t:<name>:Clean.  Only these clauses are specified: the jobs   *)
-(*  switch (-m / -maxCpuCount, with :N for N >= 1), no load switch, a        *)
-(*  quiet-verbosity switch iff not verbose, the vs-args present in order,    *)
-(*  the solution (or, for a run target, a project) file first.               *)
+(*  [R054] "meson compile -C builddir -j0 is the same as msbuild             *)
+(*         builddir/my.sln -m"; "-l does nothing with msbuild"; "--verbose:  *)
+(*         for VS backend it means that logs will be less verbose by default *)
+(*         (without --verbose option)"                                       *)
+(*  [R055] --vs-args are added to the msbuild invocation; [T1] passes        *)
+(*         --vs-args=-t:<name>:Clean                                         *)
+(*  Vs-External.md: `meson compile --clean` is the clean command             *)
+(* Only these clauses are specified (the clause names are the verdicts):     *)
+(*  VsSolution: msbuild is given the solution of the build directory first;  *)
+(*  VsJobs: exactly one job switch, -m[:N] / -maxCpuCount[:N], with N iff    *)
+(*          the value is >= 1;                                               *)
+(*  VsLoad: the load average does not appear;                                *)
+(*  VsQuiet: a minimal/quiet verbosity switch iff not --verbose;             *)
+(*  VsArgs: the --vs-args, in order and together;                            *)
+(*  VsTargets: one -target: switch per expression, different targets under   *)
+(*          different names (how msbuild names a project is Microsoft's      *)
+(*          documentation, not meson's), VsClean: the Clean target iff       *)
+(*          --clean.                                                         *)
+(* run/alias targets are not generated for this backend (their treatment is  *)
+(* not documented).                                                          *)
 (***************************************************************************)
-VsJobsTokens(j) == IF j >= 1 THEN {"-maxCpuCount:" \o ToString(j), "-m:" \o ToString(j), "/m:" \o ToString(j)}
-                   ELSE {"-maxCpuCount", "-m", "/m"}
-VsQuietTokens == {"-verbosity:minimal", "-verbosity:quiet", "-v:m", "-v:q", "/v:m", "/v:q"}
-VsAllJobsTokens(maxj) == UNION { VsJobsTokens(j) : j \in 0..maxj }
+HasPrefix(s, p) == Len(s) >= Len(p) /\ SubSeq(s, 1, Len(p)) = p
+VsTargetPrefixes == {"-target:", "-t:", "/target:", "/t:"}
+IsVsTarget(s) == \E p \in VsTargetPrefixes : HasPrefix(s, p)
+VsTargetName(s) == LET p == CHOOSE p \in VsTargetPrefixes : HasPrefix(s, p) IN SubSeq(s, Len(p) + 1, Len(s))
+VsJobSwitches == {"-m", "/m", "-maxCpuCount", "/maxCpuCount", "-maxcpucount", "/maxcpucount"}
+IsVsJobs(s) == s \in VsJobSwitches \/ \E w \in VsJobSwitches : HasPrefix(s, w \o ":")
+VsJobsOK(s, j) == IF j >= 1 THEN \E w \in VsJobSwitches : s = w \o ":" \o ToString(j) ELSE s \in VsJobSwitches
+VsQuietTokens == {"-verbosity:minimal", "-verbosity:quiet", "-verbosity:m", "-verbosity:q", "-v:m", "-v:q", "-v:minimal", "-v:quiet",
+                  "/verbosity:minimal", "/verbosity:quiet", "/v:m", "/v:q", "/v:minimal", "/v:quiet"}
+Contains(a, b) == b = <<>> \/ \E k \in 1..(Len(a) - Len(b) + 1) : SubSeq(a, k, k + Len(b) - 1) = b
+
+\* the first clause a msbuild command line violates, "ok" when none; every expression of X resolves
+VsClause(argv, f, X, T) ==
+    IF ~(Len(argv) >= 2 /\ argv[1] = "msbuild" /\ argv[2] = "@SLN") THEN "VsSolution"
+    ELSE
+    LET rest  == SubSeq(argv, 3, Len(argv))
+        jobs  == SelectSeq(rest, IsVsJobs)
+        names == LET tt == SelectSeq(rest, IsVsTarget) IN [k \in 1..Len(tt) |-> VsTargetName(tt[k])]
+        built == SelectSeq(names, LAMBDA n : n # "Clean")
+        want  == { TargetOf(X[k], T).id : k \in 1..Len(X) }
+    IN IF ~(Len(jobs) = 1 /\ VsJobsOK(jobs[1], f.j)) THEN "VsJobs"
+       ELSE IF f.l10 # 0 /\ \E k \in 1..Len(rest) : rest[k] \in LoadTokens(IF f.l10 < 0 THEN 0 - f.l10 ELSE f.l10) THEN "VsLoad"
+       ELSE IF (\E k \in 1..Len(rest) : rest[k] \in VsQuietTokens) = f.v THEN "VsQuiet"
+       ELSE IF ~Contains(rest, f.na) THEN "VsArgs"
+       ELSE IF Cardinality({ k \in 1..Len(names) : names[k] = "Clean" }) # (IF f.clean THEN 1 ELSE 0) THEN "VsClean"
+       ELSE IF ~(Len(built) = Len(X) /\ Cardinality(Elems(built)) = Cardinality(want)) THEN "VsTargets"
+       ELSE "ok"
 =============================================================================
